@@ -252,6 +252,22 @@ func RunScenario(t *testing.T, s *Scenario, chk Checker, keepLog bool) (rep *Run
 			}
 			if keepLog {
 				rep.Log = sim.LogText()
+				if os.Getenv("SIM_NAMES") == "1" {
+					names := map[string]string{}
+					for _, h := range s.History {
+						if g, err := exec.NewOutputModuleGraph(h.Req.Output, true, s.Pkg.Modules(), s.First); err == nil {
+							for _, m := range g.UsedModules() {
+								names[g.ModuleHashes().Get(m.Name)] = m.Name
+							}
+						}
+					}
+					for i, l := range rep.Log {
+						for hsh, n := range names {
+							l = strings.ReplaceAll(l, hsh, n)
+						}
+						rep.Log[i] = l
+					}
+				}
 			}
 			if os.Getenv("SIM_DUMPDISK") == "1" {
 				names := map[string]string{}
